@@ -550,6 +550,13 @@ func (d *DFA) IsMatchAt(cache *DFACache, haystack []byte, at int) bool {
 	return d.searchEarliestMatch(cache, haystack, at)
 }
 
+// IsMatchAtAnchored returns true if a match STARTS exactly at position 'at'.
+// Anchored counterpart of IsMatchAt: early termination on the first match state,
+// no implicit (?s:.)*? prefix. Used to confirm a match start found by a reverse scan.
+func (d *DFA) IsMatchAtAnchored(cache *DFACache, haystack []byte, at int) bool {
+	return d.searchEarliestMatchAnchored(cache, haystack, at)
+}
+
 // searchEarliestMatch performs DFA search with early termination.
 // Returns true as soon as any match state is reached.
 // This is faster than searchAt because it doesn't track match positions
